@@ -10,6 +10,7 @@ package main
 
 import (
 	"bytes"
+	"context"
 	"encoding/json"
 	"fmt"
 	"os"
@@ -292,7 +293,9 @@ func runC17(r *evid.Run) {
 
 	self, _ := os.Executable()
 	out := filepath.Join(scratch, "life.ndjson")
-	cmd := exec.Command(self, "C17-child", "quick", out)
+	cctx, ccancel := context.WithTimeout(context.Background(), 20*time.Minute)
+	defer ccancel()
+	cmd := exec.CommandContext(cctx, self, "C17-child", "quick", out)
 	cmd.Env = append(os.Environ(), "VERIF_TIER="+r.Tier)
 	var stderr bytes.Buffer
 	cmd.Stderr = &stderr
